@@ -241,6 +241,71 @@ fn write_snap(w: &mut impl Write, s: &Snap) {
     .unwrap();
 }
 
+/// A real-time case on the async engine: no re-stamping; operations run at chosen offsets
+/// from the start of a wall-clock second, so the engine's whole-second clock is exercised
+/// with real sub-second phases. Virtual time = milliseconds since that second started.
+fn run_rt_case(header: &str, ops: &[String]) -> String {
+    use std::fmt::Write as _;
+    let t: Vec<&str> = header.split_whitespace().collect();
+    let fw = match (opt(t[7]), opt(t[8])) {
+        (Some(n), Some(d)) => Some(n as f64 / d as f64),
+        _ => None,
+    };
+    let (pol, limit, ttl, maxmem) = (policy(t[3]), opt(t[4]).map(|x| x as usize), opt(t[5]), opt(t[6]).map(|x| x as usize));
+    let store = AsyncStore { map: DashMap::new(), order: Mutex::new(VecDeque::new()), stats: cachelito_core::CacheStats::new() };
+    let mut out = String::new();
+    writeln!(out, "CASE {}", t[1..].join(" ")).unwrap();
+    // wait for the start of the next wall-clock second
+    let d = SystemTime::now().duration_since(UNIX_EPOCH).unwrap();
+    let base_sec = d.as_secs() + 1;
+    let base = UNIX_EPOCH + Duration::from_secs(base_sec);
+    let mut vnow: u64 = 0;
+    for line in ops {
+        let o: Vec<&str> = line.split_whitespace().collect();
+        vnow += o[1].parse::<u64>().unwrap();
+        let target = base + Duration::from_millis(vnow);
+        if let Ok(wait) = target.duration_since(SystemTime::now()) {
+            std::thread::sleep(wait);
+        }
+        let cache = AsyncGlobalCache::new(&store.map, &store.order, limit, maxmem, pol, ttl, fw, &store.stats);
+        let res = catch_unwind(AssertUnwindSafe(|| -> Out {
+            match o[2] {
+                "get" => match cache.get(&kname(o[3].parse().unwrap())) { Some(v) => Out::Some(v.parse().unwrap_or(u64::MAX)), None => Out::None },
+                "ins" => { cache.insert(&kname(o[3].parse().unwrap()), mkval(o[4].parse().unwrap(), o[5].parse().unwrap())); Out::Unit }
+                "insm" => { cache.insert_with_memory(&kname(o[3].parse().unwrap()), mkval(o[4].parse().unwrap(), o[5].parse().unwrap())); Out::Unit }
+                x => panic!("op {}", x),
+            }
+        }));
+        let late = SystemTime::now().duration_since(target).map(|d| d.as_millis()).unwrap_or(0);
+        writeln!(out, "O {} {}", vnow, o[2..].join(" ")).unwrap();
+        match res {
+            Ok(Out::None) => writeln!(out, "R none").unwrap(),
+            Ok(Out::Some(v)) => writeln!(out, "R some {}", v).unwrap(),
+            Ok(Out::Unit) => writeln!(out, "R unit").unwrap(),
+            Ok(Out::Panic(m)) => writeln!(out, "R panic {}", m).unwrap(),
+            Err(_) => writeln!(out, "R panic ?").unwrap(),
+        }
+        let mut st: Vec<(u64, u64, u64, u64, i64)> = Vec::new();
+        for e in store.map.iter() {
+            let (v, ts, f) = e.value();
+            // birth relative to the base second; a timestamp in the future shows as such
+            let born = (*ts as i64 - base_sec as i64) * 1000;
+            st.push((knum(e.key()), v.parse().unwrap_or(u64::MAX), footprint(v), *f, born));
+        }
+        st.sort();
+        let q: Vec<String> = store.order.lock().iter().map(|k| knum(k).to_string()).collect();
+        let sts: Vec<String> = st.iter().map(|(k, v, sz, f, b)| format!("{}:{}:{}:{}:{}", k, v, sz, f, (*b).max(0))).collect();
+        writeln!(out, "S {} {} | {} | {}", store.stats.hits(), store.stats.misses(),
+                 if q.is_empty() { "-".to_string() } else { q.join(",") },
+                 if sts.is_empty() { "-".to_string() } else { sts.join(";") }).unwrap();
+        if late > 120 {
+            writeln!(out, "W timing").unwrap();
+        }
+    }
+    writeln!(out, "END").unwrap();
+    out
+}
+
 fn main() {
     let args: Vec<String> = std::env::args().collect();
     let inp = std::io::BufReader::new(std::fs::File::open(&args[1]).expect("cases"));
@@ -257,10 +322,25 @@ fn main() {
     let _ = r.tl_stats_base;
     let mut tl: Option<ThreadLocalCache<String>> = None;
 
+    let mut rt_cases: Vec<(String, Vec<String>)> = Vec::new();
+    let mut in_rt = false;
     for line in inp.lines() {
         let line = line.unwrap();
         let t: Vec<&str> = line.split_whitespace().collect();
         if t.is_empty() {
+            continue;
+        }
+        if t[0] == "RTCASE" {
+            rt_cases.push((line.clone(), Vec::new()));
+            in_rt = true;
+            continue;
+        }
+        if in_rt {
+            if t[0] == "END" {
+                in_rt = false;
+            } else {
+                rt_cases.last_mut().unwrap().1.push(line.clone());
+            }
             continue;
         }
         match t[0] {
@@ -370,6 +450,15 @@ fn main() {
             }
             _ => panic!("bad line {}", line),
         }
+    }
+    // real-time cases run concurrently, each on its own storage
+    let handles: Vec<_> = rt_cases
+        .into_iter()
+        .map(|(h, ops)| std::thread::spawn(move || run_rt_case(&h, &ops)))
+        .collect();
+    for h in handles {
+        let s = h.join().unwrap_or_else(|_| String::new());
+        out.write_all(s.as_bytes()).unwrap();
     }
     out.flush().unwrap();
 }
